@@ -10,12 +10,14 @@ parser on ordinary and edge structures, see the table at the end of this comment
 `StructureFormatError` in every cell, EXCEPT for the following inputs, which are genuine counter-examples of
 the written-text clause of C12 and therefore appear as explicit decidable hypotheses:
 
-* `kwFree` (no record word `cell` / `dcell`): an XYZ title `cell 1 1 1` or an element named `cell`
-  (xyz, rawxyz, xcfg text) makes the DISCUS reader accept the foreign text as a structure WITHOUT atoms
-  (real: `Structure(title="cell 1 1 1")`, 1 atom `C`, `writeStr("xyz")` → `getParser("discus").parse` → 0 atoms;
-  `getParser("auto")` then reports `discus`).  The PDFfit reader does the same for a title
-  `cell 3 4 5 90 90 90` or an XCFG element `cell`.  (`dcell` is excluded for the model's sake: a `dcell` record
-  with fewer than six numbers is outside the PDFfit document type, `PErr.unmodelled`.)
+* `kwFree` (no record word `cell` / `dcell`): when this file was written, an XYZ title `cell 1 1 1` or an element
+  named `cell` (xyz, rawxyz, xcfg text) made the DISCUS reader accept the foreign text as a structure WITHOUT atoms
+  (`Structure(title="cell 1 1 1")`, 1 atom `C`, `writeStr("xyz")` → `getParser("discus").parse` → 0 atoms;
+  `getParser("auto")` then reported `discus`), the PDFfit reader likewise — a genuine defect, repaired in the library
+  (56ab7f4: both readers require the `atoms` record; the models follow).  Since the repair the foreign text must contain a
+  `cell` line AND a later line starting with `atoms` (an atom NAMED `atoms`; finding `cross:word-formats:atoms-element`), so
+  `kwFree` is now stronger than needed; the theorems stay as proved.  (`dcell` is excluded for the model's sake: a `dcell`
+  record with fewer than six numbers is outside the PDFfit document type, `PErr.unmodelled`.)
 * `rawPdbFree` (the first element of raw XYZ text is not a PDB record name): raw XYZ text of a structure whose
   elements are all named `TITLE` / `END` / `REMARK` … is accepted by the PDB reader with zero atoms.
 
